@@ -3,7 +3,7 @@ from engine.symex import s_eq
 from harness import loop_common as lcm
 from harness.loop_specs import C05, LoopSpec, mkjob
 
-MARKED = {"R1": [("c1", "x", 0), ("c2", "y", "dflt")],
+MARKED = {"R1": [("c1", "x", 0), ("c2", "y", "dflt"), ("c1", "_hidden", -1)],
           "R2": [("c1", "x", 0), ("c2", "x", 0), ("c2", "y", "dflt"), ("c1", "z", 1.5), ("c2", "z", 2.5)],
           "R3": [("c1", "x", 0), ("c2", "y", "dflt")],
           "R5": [("c1", "x", 0), ("c2", "x", 0), ("c1", "y", "dflt"), ("c2", "y", "dflt")]}
